@@ -344,7 +344,13 @@ func runWriter(c *ctx, in bgzfInput, wc int, data []byte) writeRun {
 				} else { // writes after Close: any bytes
 					p = make([]byte, lens[i])
 				}
-				n, e := w.Write(p)
+				// io.Writer: Write must not retain p. The caller's buffer is a private copy that is
+				// overwritten as soon as Write returns (the io.CopyBuffer / bam.Writer usage pattern).
+				q := append([]byte(nil), p...)
+				n, e := w.Write(q)
+				for j := range q {
+					q[j] ^= 0xa5
+				}
 				if !wr.closed {
 					pos += lens[i]
 				}
